@@ -856,12 +856,23 @@ class Interp:
         for dummy, kind, obj, anode in order:
             frame.store[id(dummy)] = self._bind(dummy, kind, obj, frame, anode)
         self.frames.append(frame)
+        # Optional hooks `enter(interp, frame, routine, call node)` /
+        # `leave(...)` bracket every routine invocation (dummies are bound
+        # in frame.store when `enter` is called); used by admissibility
+        # monitors (argument-aliasing rules, C07).
+        entered = False
         try:
+            if self.hooks is not None and hasattr(self.hooks, "enter"):
+                self.hooks.enter(self, frame, rout, node)
+            entered = True
             try:
                 self.exec_schedule(rout, frame)
             except _Return:
                 pass
         finally:
+            if entered and self.hooks is not None and \
+                    hasattr(self.hooks, "leave"):
+                self.hooks.leave(self, frame, rout, node)
             self.frames.pop()
         if function:
             rsym = rout.return_symbol
